@@ -146,6 +146,9 @@ func TestWorker(t *testing.T) {
 		runStarted.Store(time.Now().UnixNano())
 		out := Execute(t, p, sc)
 		runStarted.Store(0)
+		if tp := os.Getenv("VERIF_TRACE_OUT"); tp != "" {
+			os.WriteFile(tp, []byte(strings.Join(out.Trace, "\n")), 0o644)
+		}
 		sum.Runs++
 		sum.Classes[sc.Class]++
 		sum.Engines[sc.Engine]++
@@ -268,6 +271,10 @@ func TestWorker(t *testing.T) {
 		sc := p.Gen(r, tier, idx)
 		if sc.Prop == "" {
 			sc.Prop = id
+		}
+		if os.Getenv("VERIF_DUMP_SC") != "" {
+			b, _ := json.Marshal(sc)
+			fmt.Fprintf(os.Stderr, "SCENARIO %d %s\n", idx, b)
 		}
 		runOne(sc, idx)
 	}
